@@ -1,5 +1,6 @@
 import DmrVerif.Driver.Loop
+import DmrVerif.Driver.Fragment
 
-/-! model driver for property C07 (stub: no operations registered yet) -/
+/-! model driver for property C07: the transmission generator, and the tracker of C08 as its receiver -/
 
-def main : IO Unit := Dmr.Driver.runMain []
+def main : IO Unit := Dmr.Driver.runMainS Dmr.Driver.fragStep none
